@@ -16,6 +16,9 @@ def check_c14(ctx):
         gen += r.replay
     plain = [dict(text=text_of(r)) for r in plain_corpus(ctx, [(0, "bundled")])]
     plain += fence_corpus(3 if quick else 4) + meta_boundary_corpus()
+    if not quick and len(plain) > 150000:      # x 8 extension sets: the recorder and the judge hold every record
+        import random
+        plain = random.Random(ctx.seed).sample(plain, 150000)
     docs = [dict(text=text_of(d)) for d in generated_corpus(ctx, kernels=False)]
     pin1 = os.path.join(ctx.work, "gen_in.ndjson")
     pin2 = os.path.join(ctx.work, "plain_in.ndjson")
@@ -24,7 +27,7 @@ def check_c14(ctx):
     core.write_ndjson(pin1, gen)
     core.write_ndjson(pin2, plain + docs)
     core.run_harness(ctx, ["meta", "--in", pin1, "--out", po1])
-    exts = "none,all,64,3754,compat" if quick else "none,all,64,3754,compat,2,8,32,128,512,1024,2050"
+    exts = "none,all,64,3754,compat" if quick else "none,all,64,3754,compat,2,1770,2730"
     core.run_harness(ctx, ["meta", "--in", pin2, "--out", po2, "--ext", exts])
     total = 0
     both = 0
